@@ -71,6 +71,17 @@ def earlier_versions(rng, obj):
             o["metadata"]["generation"] = 1
         for k in ("desired", "current", "ready", "available"):
             o["status"][k] = rng.randint(0, 50)
+        # ... with another canary block, other conditions and state: nothing of an earlier export may show in a later one
+        if "canary" in o["status"] or rng.random() < 0.5:
+            if rng.random() < 0.6:
+                o["status"]["canary"] = {"replicaSet": rng.choice(["foo-old", "foo-x"]), "nodes": ["n%d" % i for i in range(rng.randint(0, 3))]}
+            else:
+                o["status"].pop("canary", None)
+        if "state" in o["status"]:
+            o["status"]["state"] = rng.choice(STATES)
+        for c_ in o["status"].get("conditions") or []:
+            c_["status"] = rng.choice(["True", "False"])
+            c_["reason"] = rng.choice(REASONS)
         out.append(o)
     return out
 
